@@ -19,7 +19,7 @@ var prop = vlib.Prop[*vlib.HistCase]{
 		"oracle = complete dump of the INTENDED store through the real cache client (GetKeys + Read(Priority:-1)) compared after every successful step with the model: per live intent exactly its leaves, values and request priority, nothing for deleted intents, untouched intents unchanged; " +
 		"non-trivial = some step changes, re-prioritises or deletes an intent of which >=1 path is shadowed by another owner at that moment; distinct = distinct case JSON",
 	Gen: func(t *rapid.T) *vlib.HistCase {
-		return vlib.GenHistCase(t, vlib.HistGenOpts{Universe: vlib.UniPlain, MinSteps: 1, MaxSteps: 10, WithInit: true, AllowOrphan: true})
+		return vlib.GenHistCase(t, vlib.HistGenOpts{Universe: vlib.UniPlainNA, MinSteps: 1, MaxSteps: 10, WithInit: true, AllowOrphan: true})
 	},
 	Exec: Exec,
 }
